@@ -56,7 +56,9 @@ static void reg_oracle(const double *yt, const double *yp, size_t n, regref *o)
   o->tol_mse = 64.0 * (double)(m + 8) * DEPS * (double)o->mse;
   o->tol_rmse = 64.0 * (double)(m + 8) * DEPS * (double)o->rmse;
   o->tol_mae = 64.0 * (double)(m + 8) * DEPS * (double)o->mae;
-  o->tol_r2 = 64.0 * (double)(m + 8) * DEPS * (1.0 + (double)o->ratio);
+  /* the residuals y - ybar are formed in double from a mean that is itself rounded: each carries eps |y_i|, so the total sum of squares has the
+     relative error ~ 2 eps sum|y||y - ybar| / sstot (large when the vector sits far from the origin) and R2 inherits it times the ratio */
+  o->tol_r2 = 64.0 * (double)(m + 8) * DEPS * (1.0 + (double)o->ratio * (1.0 + (double)(absB / (sstot > 0 ? sstot : 1))));
   /* BIAS = |1 - A/B|, A = sum yp (yt - ybar), B = sum yt (yt - ybar) with ybar rounded in double:
      dA <= eps (m sum|yp||yt-ybar| + sum|yt| sum|yp|), dB likewise with yt */
   dA = (ld)DEPS * ((ld)m * absA + sabs * spabs);
